@@ -117,17 +117,27 @@ def gen_Xsd(repo: pathlib.Path) -> str:
                 raise ExtractError("retree.Renderer does not read its escaping tables from the instance (self.…)")
 
     rx = _regex_source(mod, "_ESCAPE_BACKSLASH_X_RE")
-    m = re.fullmatch(r"\\\\x\(\[([^\]]*)\]\{2\}\)", rx)
+    m = re.fullmatch(r"\\\\\\\\\|\\\\x\(\[([^\]]*)\]\{2\}\)", rx)
     if not m:
         raise ExtractError(f"_ESCAPE_BACKSLASH_X_RE has an unknown shape: {rx!r}")
     cls_x = _class_ranges(m.group(1))
     rxu = _regex_source(mod, "_ESCAPE_BACKSLASH_X_U_U_RE")
-    m = re.fullmatch(r"\(\\\\x\(\[([^\]]*)\]\{2\}\)\|\\\\u\(\[([^\]]*)\]\{4\}\)\|\\\\U\(\[([^\]]*)\]\{8\}\)\)", rxu)
+    m = re.fullmatch(r"\(\\\\\\\\\|\\\\x\(\[([^\]]*)\]\{2\}\)\|\\\\u\(\[([^\]]*)\]\{4\}\)\|\\\\U\(\[([^\]]*)\]\{8\}\)\)", rxu)
     if not m:
         raise ExtractError(f"_ESCAPE_BACKSLASH_X_U_U_RE has an unknown shape: {rxu!r}")
     if not (m.group(1) == m.group(2) == m.group(3)):
         raise ExtractError("the three character classes of _ESCAPE_BACKSLASH_X_U_U_RE differ")
     cls_xuu = _class_ranges(m.group(1))
+
+    for fname in ("_undo_escaping_backslash_x_in_pattern", "_undo_escaping_backslash_x_u_and_U_in_pattern"):
+        fn = _func(mod, fname)
+        skips = [
+            n for n in ast.walk(fn)
+            if isinstance(n, ast.If) and isinstance(n.test, ast.Compare) and isinstance(n.test.comparators[0], ast.Constant)
+            and n.test.comparators[0].value == "\\\\" and any(isinstance(b, ast.Continue) for b in n.body)
+        ]
+        if len(skips) != 1:
+            raise ExtractError(f"{fname} does not skip the escaped backslash with a `continue`")
 
     steps = [c for c in _calls_in_order(_func(mod, "_translate_pattern")) if not c.startswith("?.") and c not in ("isinstance", "ord")]
 
@@ -337,7 +347,7 @@ def impl_translate(p: str) -> str:
         return f"err nonxml {int(m.group(1), 16)}"
     lines = error.split("\n")
     if len(lines) >= 3 and lines[-1].endswith("^"):
-        return f"err parse {len(lines[-1]) - 1}"
+        return "err parse"
     return "err other " + error[:60]
 
 
@@ -348,7 +358,7 @@ def impl_undo(which: str, p: str) -> str:
     try:
         return "ok " + enc_text(fn(p))
     except BaseException as e:  # noqa
-        return "crash " + type(e).__name__
+        return "crash " + ("ValueError" if isinstance(e, (ValueError, OverflowError)) else type(e).__name__)
 
 
 def is_xml_string(s: str) -> bool:
@@ -570,6 +580,66 @@ def _is_xml_char(c: str) -> bool:
     return o in (0x9, 0xA, 0xD) or 0x20 <= o <= 0xD7FF or 0xE000 <= o <= 0xFFFD or 0x10000 <= o <= 0x10FFFF
 
 
+_ESC_ENDPOINT_RE = re.compile(r"\\.-[^\]]|[^\[^]-\\")
+
+
+def xmlschema_blind(t: str) -> bool:
+    """
+    xmlschema 4.x mis-reads a range whose start or end is an escape (``[\\t-z]`` is read as the three members
+    tab, dash, z; ``[\\n-\\[]`` is refused) although ``seRange ::= charOrEsc '-' charOrEsc`` allows it.  For such patterns
+    the judge is Python's ``re`` on the pattern converted by ``xsd_to_python`` (an independent, direct conversion).
+    """
+    return _ESC_ENDPOINT_RE.search(t) is not None
+
+
+def xsd_to_python(t: str) -> Optional[Any]:
+    """A compiled Python regular expression with the language of the XSD pattern ``t`` (which obeys the grammar)."""
+    out = []
+    i = 0
+    in_class = False
+    while i < len(t):
+        c = t[i]
+        if c == "\\":
+            out.append(t[i : i + 2])
+            i += 2
+            continue
+        if in_class:
+            if c == "]":
+                in_class = False
+            out.append("\\" + c if c in "&~|" else c)
+        elif c == "[":
+            in_class = True
+            out.append(c)
+            if t[i + 1 : i + 2] == "^":
+                out.append("^")
+                i += 1
+        elif c == ".":
+            out.append("[^\\n\\r]")
+        elif c in "^$":
+            out.append("\\" + c)
+        else:
+            out.append(c)
+        i += 1
+    try:
+        with warnings.catch_warnings():
+            warnings.simplefilter("ignore")
+            return re.compile("".join(out), re.S)
+    except BaseException:  # noqa
+        return None
+
+
+class PyFacet:
+    """Stand-in for an xmlschema simple type where xmlschema is blind."""
+
+    def __init__(self, t: str) -> None:
+        self.rx = xsd_to_python(t)
+
+    def is_valid(self, s: str) -> bool:
+        from harness.props import c16
+
+        return c16._with_alarm(1.0, lambda: self.rx.fullmatch(s) is not None)
+
+
 def facet_valid(ty: Any, s: str) -> Optional[bool]:
     try:
         return bool(ty.is_valid(s))
@@ -625,6 +695,10 @@ def pattern_stage(ctx: Ctx, pats: List[Tuple[str, str]], with_model: bool) -> No
     texts = [t for _, t in translated]
     ty10 = load_facets(texts, "1.0")
     ty11 = load_facets(texts, "1.1")
+    for k, t in enumerate(texts):
+        if xmlschema_blind(t) and spec_validate(t) is None:
+            ctx.hit("judge=python-fallback(xmlschema mis-reads escaped range ends)")
+            ty10[k] = ty11[k] = PyFacet(t)
     cands = [candidate_strings(ctx, pats[i][0], trees[i]) for i, _ in translated]
     # --- model: reader + matcher versus xmlschema
     reads: List[str] = []
@@ -717,8 +791,6 @@ def undo_stage(ctx: Ctx) -> None:
             ctx.hit(f"{which}=" + g.split(" ")[0])
             if g != w:
                 ctx.disagree(which, {"text": s}, g, w)
-            if g.startswith("crash"):
-                ctx.fail({"text": s, "function": which}, f"{which} raised {g}", f"C13:{which}-raises:" + g.split(" ")[1])
 
 
 # --------------------------------------------------------------------------- meta-model level
